@@ -284,6 +284,28 @@ fn op_parse(toks: &[Tok], prop: &str) -> Outcome {
 /// C19, last sentence: the 4-byte ECU, application and context ids of a parsed message are what the
 /// fixed-size-field rule yields for the 4 bytes at their place in the input
 fn ids_oracle(sh: bool, bs: &[u8], oracle: &mut Vec<(String, String)>) {
+    // a buffer that ends inside the ECU id (the first field behind the four fixed header bytes): incomplete,
+    // the hint no larger than the shortfall
+    {
+        let base = if sh { 16 } else { 0 };
+        if (!sh || bs.starts_with(b"DLT\x01")) && bs.len() >= base + 4 && bs.len() < base + 8 && bs[base] & 4 != 0 {
+            let short = base + 8 - bs.len();
+            match guarded(|| dlt_message(bs, None, sh)) {
+                Some(Err(DltParseError::IncompleteParse { needed })) => {
+                    if let Some(n) = needed {
+                        if n.get() > short {
+                            oracle.push(("id_incomplete_hint".into(), format!("ECU id short by {} but the hint asks for {}", short, n)));
+                        }
+                    }
+                }
+                Some(other) => oracle.push((
+                    "id_incomplete".into(),
+                    format!("the buffer ends {} bytes into the ECU id but the parser answered {} instead of incomplete", 4 - short, match other { Ok(_) => "a message".to_string(), Err(e) => format!("{:?}", e) }),
+                )),
+                None => {}
+            }
+        }
+    }
     let m = match guarded(|| dlt_message(bs, None, sh)) {
         Some(Ok((_, ParsedMessage::Item(m)))) => m,
         _ => return,
@@ -511,16 +533,48 @@ fn op_new(toks: &[Tok], prop: &str) -> Outcome {
     let mut r = R::new(toks);
     let c = r.cfg();
     let sh = r.opt_sh();
-    let ts = if r.n() == 0 { None } else { Some(r.ts()) };
+    let mode = r.n();
+    let mut ts = if mode == 1 { Some(r.ts()) } else { None };
     let mut w = W::new();
     let mut oracle = vec![];
+    let mut clock = None;
     let res = guarded(|| {
         let m = Message::new(c.clone(), sh.clone());
-        match &ts {
-            Some(t) => m.add_storage_header(Some(t.clone())),
-            None => m,
+        match (&ts, mode) {
+            (Some(t), _) => m.add_storage_header(Some(t.clone())),
+            (None, 2) => {
+                // the clock variant: the time is whatever the clock said, everything else is determined
+                let before = std::time::SystemTime::now().duration_since(std::time::UNIX_EPOCH).map(|d| d.as_millis()).unwrap_or(0);
+                let mut m = m.add_storage_header(None);
+                let after = std::time::SystemTime::now().duration_since(std::time::UNIX_EPOCH).map(|d| d.as_millis()).unwrap_or(0);
+                if let Some(h) = &mut m.storage_header {
+                    clock = Some((before, h.timestamp.clone(), after));
+                    h.timestamp = DltTimeStamp { seconds: 0, microseconds: 0 };
+                }
+                m
+            }
+            _ => m,
         }
     });
+    if mode == 2 {
+        ts = Some(DltTimeStamp { seconds: 0, microseconds: 0 });
+        if prop == "C15" {
+            match &clock {
+                Some((b, t, a)) => {
+                    let ms = t.seconds as u128 * 1000 + (t.microseconds / 1000) as u128;
+                    // (one second of slack for a clock that is stepped while the case runs)
+                    if t.microseconds >= 1_000_000 || t.microseconds % 1000 != 0 || ms + 1000 < *b || ms > *a + 1000 {
+                        oracle.push(("storage_header_time_is_now".into(), format!("clock gave {}..{} ms, header carries {} s {} us", b, a, t.seconds, t.microseconds)));
+                    }
+                }
+                None => {
+                    if res.is_some() {
+                        oracle.push(("storage_header_prepended".into(), "add_storage_header(None) left the message without a storage header".into()));
+                    }
+                }
+            }
+        }
+    }
     match &res {
         Some(m) => w.msg(m),
         None => w.n(4),
